@@ -68,6 +68,10 @@ def run(c):
             if len(es) >= 2 and len(es[0]) != len(es[-1]):
                 add(base["inp"] + es[-1] + es[0]); add(base["inp"] + es[0] + es[-1])
                 if len(es) >= 3: add(base["inp"] + es[len(es) // 2] + es[0])
+        # contents that look structured (code + inner big-endian length / count smaller than the content) for every element
+        for iei, es in byiei.items():
+            for v in structured_elements(m, max(es, key=len)): add(base["inp"] + v)
+        for v in exact_64k_inputs(m, base["inp"], singles): add(v)
         # header octets that routing ignores, non-zero
         for e in pick[:3]:
             for v in hdr_variants(m, base["inp"] + e): add(v)
